@@ -21,7 +21,7 @@ func init() {
 
 func init() {
 	register("C11",
-		"Decides the structural preconditions of GC visibility: every runtime allocation/clear/copy/map call gets the real run-time type (GC-TYPED); no pointer is parked in a uintptr across a call or stored as an integer (GC-UINTPTR); the shadow structs and the stack map iterator match the layouts of the toolchain go.mod declares, and all ten linkname pulls resolve there with matching shapes (GC-SHADOW, GC-ITER, GC-LINKSIG); ReadFile's target is the caller's typed memory or a typed allocation (GC-TARGET); every codec's New returns a typed allocation layout-compatible with what its Read expects, or the sub-codec's New when Read forwards the pointer (PC-NEW); element storage is allocated with the element's own type (BT-ARR, BT-MAP).  Arena slots are cleared with their own type when handed out and Close only resets lengths (AL-CLR, AL-CLOSE, AL-BUMP): a slot never carries pointers of an earlier use into a new value. "+
+		"Decides the structural preconditions of GC visibility: every runtime allocation/clear/copy/map call gets the real run-time type (GC-TYPED); no pointer is parked in a uintptr across a call or stored as an integer (GC-UINTPTR); the shadow structs and the stack map iterator match the layouts of the toolchain go.mod declares, and all ten linkname pulls resolve there with matching shapes (GC-SHADOW, GC-ITER, GC-LINKSIG); ReadFile's target is the caller's typed memory or a typed allocation (GC-TARGET); every codec's New returns a typed allocation layout-compatible with what its Read expects, or the sub-codec's New when Read forwards the pointer (PC-NEW); element storage is allocated with the element's own type (BT-ARR, BT-MAP).  Arena slots are cleared with their own type when handed out and Close only resets lengths (AL-CLR, AL-CLOSE, AL-BUMP): a slot never carries pointers of an earlier use into a new value.  The capacity a grown slice advertises is the number of elements allocated for it (ARR-BOUND). "+
 			"Not decided: equality of results under concurrent collection as a schedule property.",
 		func(c *Ctx) {
 			ruleGCTyped(c)
@@ -34,6 +34,7 @@ func init() {
 			rulePCNew(c)
 			ruleBTArrMap(c)
 			ruleALBump(c)
+			ruleArrBound(c)
 		})
 }
 
@@ -50,7 +51,7 @@ func isTimePkgFunc(P *Program) func(fn *ssa.Function) bool {
 
 func init() {
 	register("C19",
-		"Decides necessary conditions of C19 in the time codecs: the builder's logical-type table gives the specification's nanoseconds per unit (TS-MULT); the reader computes time.Unix(0, l*mult) (TS-READ); on every path of the writer the unit the time is converted to equals every multiplier the builder can have assigned on that path (TS-UNIT) and the multiplier is consulted by both sides (E-FU); every &x handed to the embedded int codecs is a variable of exactly the codec's width (PC-ARG), so a negative day count is sign-correct.  The time codecs omit only the zero time, never an instant whose stored integer happens to be 0 (OM-ZERO). "+
+		"Decides necessary conditions of C19 in the time codecs: the builder's logical-type table gives the specification's nanoseconds per unit (TS-MULT); the reader computes time.Unix(0, l*mult) (TS-READ); on every path of the writer the unit the time is converted to equals every multiplier the builder can have assigned on that path (TS-UNIT) and the multiplier is consulted by both sides (E-FU); every &x handed to the embedded int codecs is a variable of exactly the codec's width (PC-ARG), so a negative day count is sign-correct.  The time codecs omit only the zero time, never an instant whose stored integer happens to be 0 (OM-ZERO).  What a time codec allocates for a pointer or map value is a time.Time, what its Read fills in (PC-NEW).  No product is formed in a 32-bit type and widened afterwards (TS-WIDE). "+
 			"Not decided: the day/instant arithmetic itself (floor versus truncation before 1970, overflow of l*mult).",
 		func(c *Ctx) {
 			ruleTSMult(c)
@@ -60,6 +61,8 @@ func init() {
 			ruleTSUTC(c)
 			c.Note("not decided: DateCodec.Write divides Unix seconds by 86400 truncating toward zero (wrong before 1970 for non-midnight times); overflow of l*mult")
 			ruleOMZero(c)
+			rulePCNew(c)
+			ruleTSWide(c)
 		})
 
 	register("C20",
